@@ -204,3 +204,104 @@ def c13_xcheck(pid, tier, seed, work):
              samples, extra={"xcheck_texts": n, "xcheck_accepted": acc}, harness_errors=errs[:5])
     r["_wall"] = time.time() - t
     return r
+
+
+def _miri(args, flags, timeout):
+    import subprocess
+    env = dict(os.environ)
+    env.update({"CARGO_NET_OFFLINE": "true", "CARGO_TARGET_DIR": "/verif/.work/target-miri",
+                "MIRIFLAGS": "-Zmiri-ignore-leaks -Zmiri-disable-isolation " + flags})
+    cmd = ["cargo", "+nightly", "miri", "run", "--offline", "-q", "-p", "hvm", "--"] + args
+    try:
+        p = subprocess.run(cmd, cwd="/verif/hv", env=env, stdout=subprocess.PIPE, stderr=subprocess.PIPE, timeout=timeout)
+        return p.returncode, p.stdout.decode("utf-8", "replace"), p.stderr.decode("utf-8", "replace")
+    except subprocess.TimeoutExpired as e:
+        return -999, (e.stdout or b"").decode("utf-8", "replace"), (e.stderr or b"").decode("utf-8", "replace")
+
+
+def c08_miri(pid, tier, seed, work):
+    """Small pool scenarios interpreted by Miri under its seeded scheduler: deadlock is reported as a fact
+    (all threads blocked), data races / UB in the exercised std primitives are reported as errors."""
+    from concurrent.futures import ThreadPoolExecutor
+    t = time.time()
+    thorough = tier == "thorough"
+    nseeds = 96 if thorough else 16
+    base = (seed * 1000) % 1000000
+    # (workers, tasks, lifecycle script index, preemption rate)
+    configs = [
+        (2, "rprz", 0, "0.1"), (3, "rpqz", 1, "0.1"), (1, "ppr", 2, "0.5"), (2, "pry", 3, "0.01"),
+    ]
+    if thorough:
+        configs += [(1, "pprp", 0, "0.5"), (3, "qrsp", 2, "0.1"), (2, "rrrr", 1, "0.5"), (3, "pppp", 0, "0.1"),
+                    (2, "", 5, "0.1"), (1, "", 4, "0.1"), (3, "zpzp", 3, "0.5"), (2, "qq", 2, "0.01")]
+
+    def one(cfg):
+        n, tasks, script, rate = cfg
+        args = ["c08", "--n", str(n), "--tasks", tasks, "--script", str(script)]
+        flags = "-Zmiri-many-seeds=%d..%d -Zmiri-preemption-rate=%s" % (base, base + nseeds, rate)
+        return cfg, _miri(args, flags, 3000 if thorough else 600)
+
+    evaluations = 0
+    fps = set()
+    viols = {}
+    errs = []
+    inconclusive = []
+    samples = []
+    events = 0
+    with ThreadPoolExecutor(max_workers=3) as ex:
+        results = list(ex.map(one, configs))
+    for cfg, (rc, out, err) in results:
+        n, tasks, script, rate = cfg
+        lines = [l for l in out.split("\n") if l.startswith("HVM c08 ")]
+        evaluations += len(lines)
+        for l in lines:
+            kv = dict(x.split("=", 1) for x in l.split(" ")[2:] if "=" in x)
+            fps.add((n, tasks, script, kv.get("fp")))
+            events += int(kv.get("events", "0"))
+            if kv.get("viol"):
+                for v in kv["viol"].split("|"):
+                    sig, what = v.split("~", 1)
+                    e = viols.setdefault(sig, {"sig": sig, "what": "[miri] " + what.replace("_", " "), "count": 0,
+                                               "example": {"config": list(cfg), "trace": kv.get("trace")}, "replay": []})
+                    e["count"] += 1
+            if len(samples) < 2:
+                samples.append({"config": {"workers": n, "tasks": tasks, "script": script, "preemption_rate": rate},
+                                "trace": kv.get("trace", "")[:200]})
+        if rc == -999:
+            inconclusive.append("miri timed out on config %r" % (cfg,))
+        elif rc != 0:
+            kind = None
+            if "deadlock" in err:
+                kind = "deadlock"
+            elif "Data race detected" in err or "data race" in err.lower():
+                kind = "data-race"
+            elif "Undefined Behavior" in err:
+                kind = "undefined-behavior"
+            elif "panicked at" in err and "hv-task-panic" not in err:
+                kind = "panic"
+            if kind:
+                sig = "C08/miri:%s" % kind
+                snippet = "\n".join([l for l in err.split("\n") if l.strip() and not l.startswith("Trying seed")][:14])
+                e = viols.setdefault(sig, {"sig": sig, "what": "Miri reports %s on the thread pool (config %r)" % (kind, cfg), "count": 0,
+                                           "example": {"config": list(cfg), "stderr": snippet[:1500]}, "replay": []})
+                e["count"] += 1
+            else:
+                errs.append("miri run failed (rc=%s) for %r: %s" % (rc, cfg, err[-400:]))
+    # pure-function sweep: no UB / panic in interpreted calls of the matcher, Base64, SHA-1 and frame codec
+    rc, out, err = _miri(["pure", "--count", "400" if thorough else "120", "--seed", str(seed)], "", 1200)
+    pure_calls = 0
+    for l in out.split("\n"):
+        if l.startswith("HVM pure calls="):
+            pure_calls = int(l.split("=")[1])
+    if rc != 0:
+        if "Undefined Behavior" in err or "panicked" in err:
+            viols["C08/miri:pure-functions"] = {"sig": "C08/miri:pure-functions", "what": "Miri reports UB or a panic in the pure-function sweep", "count": 1, "example": {"stderr": err[-1200:]}, "replay": []}
+        else:
+            errs.append("miri pure sweep failed: %s" % err[-300:])
+    r = _res(evaluations, len(fps), "Miri (seeded scheduler, %d seeds per config, preemption rates 0.01/0.1/0.5, failpoints as yield points) on %d small pool scenarios (1..3 workers, up to 4 tasks, all lifecycle scripts); distinct = distinct (scenario, event sequence)" % (nseeds, len(configs)),
+             samples, extra={"miri_scenario_runs": evaluations, "miri_task_events": events, "miri_distinct_interleavings": len(fps), "miri_pure_function_calls": pure_calls},
+             harness_errors=errs[:4], violations=list(viols.values()))
+    r["inconclusive"] = inconclusive
+    r["assumptions"] = ["Miri explores one schedule per seed; a clean run covers those schedules only"]
+    r["_wall"] = time.time() - t
+    return r
